@@ -17,7 +17,7 @@ def tl_mode(segs):
     h = 0
     for a, b in segs:
         h = (h * 29 + 5 * a + 11 * b) % 1000003
-    return (h + len(segs)) % 8
+    return (h + len(segs)) % 9
 
 
 def mk_tl(tb, segs, uri=None, mode=None):
@@ -28,7 +28,9 @@ def mk_tl(tb, segs, uri=None, mode=None):
     one shared segment) built, every query called once, then the second half merged in with update() / |=
     (the two operands share a segment, and the merge usually moves the extent); 5 as 3 with an extra segment shared
     by both operands that is removed after the merge; 6 a copy() of a timeline holding `segs`, whose source is then
-    edited (an addition, a removal); 7 a copy() of a partial timeline, completed in place, whose source is then edited."""
+    edited (an addition, a removal); 7 a copy() of a partial timeline, completed in place, whose source is then edited;
+    8 all but the last segment built, then used as an operand of every non-mutating binary operation (union, |, crop,
+    extrude, covers, co_iter, ==) with a timeline that holds the last segment, and only then completed in place."""
     from pyannote.core import Timeline
     mode = tl_mode(segs) if mode is None else mode
     S = [tb.S(s) for s in segs]
@@ -76,6 +78,17 @@ def mk_tl(tb, segs, uri=None, mode=None):
         for x in list(src)[:2]:
             src.remove(x)
         src.uri = "zz_source"
+        return t
+    if mode == 8:
+        t = Timeline(S[:-1], uri=uri)
+        other = Timeline([S[-1], dummy], uri="other")
+        n0 = len(t)
+        t.union(other), t | other, other | t, other.union(t)
+        t.crop(other), t.extrude(other), t.covers(other), other.covers(t), list(t.co_iter(other)), t == other
+        t.crop(S[-1]), t.extrude(S[-1]), t.overlapping(S[-1].start)
+        assert len(t) == n0, "a non-mutating operation changed the size of its operand"
+        t.add(S[-1])
+        assert len(other) == 1 + bool(S[-1]), "a non-mutating operation changed the size of its operand"
         return t
     t = Timeline(S[:-1] + [dummy], uri=uri)
     _prime_tl(t, probes)
